@@ -423,6 +423,24 @@ fn welcome_case(name: &str, muts: &[u8], rep: &mut CaseReport) -> Result<(), Fai
             Ok(Err(_)) => {}
         }
         let _ = c;
+        // the same refusal is due when the receiver has seen the genuine invitation before:
+        // under the wrapper id it already processed, and under a new wrapper id with the
+        // genuine rumor's id kept (the checks on tags and kind do not depend on the content;
+        // mutants of the content alone are left out here: for them the answer from the store
+        // is legitimate)
+        if !matches!(m % 10, 2 | 6) {
+            let mut kept = r.clone();
+            kept.id = rumor.id;
+            let fresh = nostr::EventId::from_byte_array([0xA0 ^ (i as u8 + 1); 32]);
+            for (how, wid, ev) in [("under the wrapper id of the genuine invitation", nostr::EventId::all_zeros(), &r), ("under a new wrapper id, keeping the genuine rumor's id", fresh, &kept)] {
+                *rep.counters.entry("welcome-mutants-after-the-genuine-one".into()).or_insert(0) += 1;
+                match std::panic::catch_unwind(std::panic::AssertUnwindSafe(|| on_mdk!(&b, mm => mm.process_welcome(&wid, ev)).map(|_| ()))) {
+                    Err(_) => return Err(Failure::new("panic", format!("process_welcome panicked on: {what} ({how})"))),
+                    Ok(Ok(())) => return Err(Failure::new("welcome-parser-accepted-an-ambiguous-rumor", format!("accepted a welcome with: {what}, offered {how}"))),
+                    Ok(Err(_)) => {}
+                }
+            }
+        }
     }
     rep.nontrivial = true;
     Ok(())
@@ -538,7 +556,7 @@ pub fn main(args: &Args) -> i32 {
     let spec = Spec {
         id: "C15",
         level: "exploration",
-        rule: "four generated families. (1) group-data extension values (any UTF-8 name/description incl. empty, NUL, multi-byte, long; 0..n admins and relays; all 16 presence patterns of the four image fields; versions 1..65535): library encoding equals an independent encoder of the documented layout, decode(encode(v)) = v, and each single-field mutation (appended bytes, truncation, version 0, non-UTF-8 name/description/relay, invalid relay URL, image field lengths other than 0 or the fixed one, over-long length prefix, ragged admin vector) is refused. (2) key-package events over relay lists / protected flag: a second client parses them to the same reference and identity; each listed ambiguity (missing / hex encoding tag, hex content, foreign or missing i tag, foreign author, wrong protocol / ciphersuite / extensions tags, wrong kind, missing relays) is refused. (3) welcome rumors of real create_group calls: the joiner's preview equals the inviter's group data; missing / hex / second disagreeing or value-less encoding tag, hex content, wrong kind, missing relays / e tag, truncation are refused. (4) imeta tags over MIME families, file names and sizes: parse(create(u)) equals the reference; wrong-length or non-hex x / n, unknown or missing v, missing x / n are refused. Non-trivial = every case that reached its round trip; distinct = distinct cases".into(),
+        rule: "four generated families. (1) group-data extension values (any UTF-8 name/description incl. empty, NUL, multi-byte, long; 0..n admins and relays; all 16 presence patterns of the four image fields; versions 1..65535): library encoding equals an independent encoder of the documented layout, decode(encode(v)) = v, and each single-field mutation (appended bytes, truncation, version 0, non-UTF-8 name/description/relay, invalid relay URL, image field lengths other than 0 or the fixed one, over-long length prefix, ragged admin vector) is refused. (2) key-package events over relay lists / protected flag: a second client parses them to the same reference and identity; each listed ambiguity (missing / hex encoding tag, hex content, foreign or missing i tag, foreign author, wrong protocol / ciphersuite / extensions tags, wrong kind, missing relays) is refused. (3) welcome rumors of real create_group calls: the joiner's preview equals the inviter's group data; missing / hex / second disagreeing or value-less encoding tag, hex content, wrong kind, missing relays / e tag, truncation are refused - the structural ones also when offered after the genuine invitation under its wrapper id or with its rumor id. (4) imeta tags over MIME families, file names and sizes: parse(create(u)) equals the reference; wrong-length or non-hex x / n, unknown or missing v, missing x / n are refused. Non-trivial = every case that reached its round trip; distinct = distinct cases".into(),
         assumptions: vec![
             "the reference encoder follows TLS presentation language with RFC 9420 variable-length integers (as tls_codec does)".into(),
             "trailing bytes after the TLS structure inside key-package / welcome content are measured by C06's mutants but not judged here: only the extension parser documents a trailing-byte check".into(),
